@@ -114,57 +114,19 @@ def run(tier: str) -> Run:
                  {'result_unit': repr(out.value.unit), 'problems': probs[:3]}, key=name)
 
     # ---- R7: magnitude of single-precision intermediates over the quantified ranges and units --------------------
-    r7 = run.rule('R7', 'no float32 intermediate leaves the normal range of float32 for Ei, Ef in 1e-3..1e4 meV (meV/eV/J), L in 0.1..1e3 m '
-                        '(angstrom..km), tof in ns..s: a unit-scaled constant rounded to float32 too early underflows silently', 100)
-    import math
-
-    from sa import magnitude as M
-    from sa.units import parse_unit
-    si = {'incident_energy': (1.602176634e-25, 1.602176634e-18), 'final_energy': (1.602176634e-25, 1.602176634e-18),
-          'L1': (0.1, 1e3), 'L2': (0.1, 1e3), 'tof': (1e-6, 2e2)}
-    worst: dict = {}
-    n_runs = 0
-    for name, (efix, lfix, lother, sign) in CASES.items():
-        fi = repo.func('conversion.tof', name)
-        for eu, tu, lu in itertools.product(('meV', 'eV', 'J'), ('ns', 'us', 'ms', 's'), ('angstrom', 'nm', 'mm', 'm', 'km')):
-            units = {efix: eu, 'tof': tu, 'L1': lu, 'L2': lu}
-            T.reset()
-            model = Model()
-            model.narrow_log = []
-            it = Interp(repo, model)
-
-            def go(i, units=units, fi=fi):
-                kw = {}
-                for p_, u_ in units.items():
-                    spec = specs_for(fi)[p_]
-                    kw[p_] = make_param(i, p_, P(kind='scalar', dim=spec.dim, positive=True, unit=parse_unit(u_), dtype='float32'), 'float32')
-                return i.call_function(fi, [], kw)
-            outs7 = it.run_all(go)
-            n_runs += 1
-            if not any(o.kind == 'return' for o in outs7):
-                worst.setdefault(name, {'units': units, 'problem': f'kernel raises for float32 inputs: {[(o.exc_type, o.where) for o in outs7][:2]}'})
-                continue
-            for v, where in model.narrow_log:
-                if not isinstance(v.term, Rat) or v.unit is None or len(v.term.num) != 1 or len(v.term.den) != 1:
-                    continue  # only power products: their magnitude interval is exact (no correlation between operands is lost)
-                try:
-                    lo, hi = M.interval(v.term / v.unit.scale(), si)
-                except (M.Unbounded, T.EvalError, KeyError):
-                    continue
-                if (lo is not None and lo < M.F32_MIN_NORMAL) or (hi is not None and hi > M.F32_MAX):
-                    sev = (M.F32_MIN_NORMAL - lo) if (lo is not None and lo < M.F32_MIN_NORMAL) else (hi - M.F32_MAX)
-                    cur = worst.get(name)
-                    if cur is None or sev > cur.get('_sev', -1):
-                        worst[name] = {'_sev': sev, 'units': units, 'value': T.show(v.term)[:120], 'stored_in_unit': repr(v.unit), 'where': where,
-                                       'log10_magnitude': [None if lo is None else round(lo, 1), None if hi is None else round(hi, 1)],
-                                       'float32_normal_range_log10': [round(M.F32_MIN_NORMAL, 1), round(M.F32_MAX, 1)]}
+    r7 = run.rule('R7', 'no float32 intermediate leaves the normal range of float32 for Ei, Ef in 1e-3..1e4 meV (ueV..J), L in 0.1..1e3 m '
+                        '(angstrom..km), tof in ns..s: power products exactly (a unit-scaled constant rounded to float32 too early underflows silently), '
+                        'sums and what is computed from them by forward interval arithmetic (a non-zero delta_tof is at least eps/4 of t0)', 2)
+    from checks.magrule import worst_f32
     for name in CASES:
-        b = worst.get(name)
-        if b:
-            b = {k: v for k, v in b.items() if k != '_sev'}
-        r7.check(b is None, name, b.get('where', loc(repo.func('conversion.tof', name))) if b else loc(repo.func('conversion.tof', name)), b or {'unit_combinations': n_runs // 2}, key=f'{name}:f32-range')
-    for _ in range(n_runs - 2):
-        r7.ok('unit combination')
+        fi = repo.func('conversion.tof', name)
+        worst, n_runs, n_values = worst_f32(repo, fi, fixed_same=[('L1', 'L2')], corners=tier == 'quick')
+        if n_runs == 0:
+            raise AnalysisError(f'{fi.fq}: parameters without a physical range')
+        if n_values == 0:
+            r7.ok(name, {'unit_assignments': n_runs, 'values_bounded': 0, 'note': 'nothing is computed in single precision for float32 inputs (see R4)'}, nontrivial=False)
+            continue
+        r7.check(worst is None, name, (worst or {}).get('where') or loc(fi), {'unit_assignments': n_runs, 'values_bounded': n_values, 'worst': worst}, key=f'{name}:f32-range')
 
     r6 = run.rule('R6', 'kernels write to no module-level state and hand out no memoised object', 2)
     history_free(repo, [repo.func('conversion.tof', n) for n in CASES], r6)
